@@ -29,7 +29,7 @@ Rebased(i, l, n, N) == Offset(i, n, N) + l
 
 VARIABLE g
 Counts == IF Q THEN {0, 1, 2, 3, 5, 7, 8, 9, 16, 17, 40} ELSE 0..MaxSeries
-Init == g \in [n : Counts, N : 1..MaxShards, q : 1..27, win : {"instant", "range", "late"}]
+Init == g \in [n : Counts, N : 1..MaxShards, q : 1..31, win : {"instant", "range", "late"}]
 Next == UNCHANGED g
 
 Partition == /\ UNION {Shard(i, g.n, g.N) : i \in 0..(g.N - 1)} = 0..(g.n - 1)
@@ -43,8 +43,12 @@ AVal(k) == <<"x", "y", "z">>[(k % 3) + 1]
 Data(n) == [k \in 1..n |-> Series(<< <<"__name__","m">>, <<"a", AVal(k)>>, <<"i", Name(k)>> >>,
                                   [u \in 1..44 |-> Smp(u - 1, IF (k + u) % 11 = 0 THEN "s" ELSE "f", 100 * k + u)])]
            \o [k \in 1..(IF n > 3 THEN 3 ELSE n) |-> Series(<< <<"__name__","n">>, <<"a", AVal(k)>> >>, [u \in 1..44 |-> Smp(u - 1, "f", k + 1)])]
+           \* a metric with NaN samples: which series holds one changes from tick to tick (the first, a middle, the last of a shard)
+           \o [k \in 1..n |-> Series(<< <<"__name__","v">>, <<"a", AVal(k)>>, <<"i", Name(k)>> >>,
+                                  [u \in 1..44 |-> Smp(u - 1, IF (k + u) % 4 = 0 THEN "nan" ELSE "f", 7 * k + u)])]
 M == <<Sel(<<Metric("m")>>)>>
 N2 == <<Sel(<<Metric("n")>>)>>
+V == <<Sel(<<Metric("v")>>)>>
 Basket == <<
   M, Over(M, LAMBDA c : Agg("sum", TRUE, <<>>, <<c>>)), Over(M, LAMBDA c : Agg("sum", TRUE, <<"a">>, <<c>>)),
   Over(M, LAMBDA c : Agg("count", FALSE, <<"i">>, <<c>>)), Over(M, LAMBDA c : Agg("max", TRUE, <<"a">>, <<c>>)),
@@ -62,7 +66,10 @@ Basket == <<
   Join(M, <<Sel(<<Metric("m"), Eq("a", "x")>>)>>, LAMBDA a, b : Bin("-", a, b)),
   \* long windows over dense data: more samples per window than any initial buffer holds, windows that overlap
   <<RFn("sum_over_time", <<Metric("m")>>, 25, 0, "none", 0)>>, <<RFn("rate", <<Metric("m")>>, 30, 1, "none", 0)>>,
-  Over(<<RFn("max_over_time", <<Metric("m")>>, 20, 0, "none", 0)>>, LAMBDA c : Agg("sum", TRUE, <<"a">>, <<c>>)) >>
+  Over(<<RFn("max_over_time", <<Metric("m")>>, 20, 0, "none", 0)>>, LAMBDA c : Agg("sum", TRUE, <<"a">>, <<c>>)),
+  \* reductions that skip NaN members wherever they sit in the input
+  Over(V, LAMBDA c : Agg("max", TRUE, <<>>, <<c>>)), Over(V, LAMBDA c : Agg("min", TRUE, <<>>, <<c>>)),
+  Over(V, LAMBDA c : Agg("min", TRUE, <<"a">>, <<c>>)), Over(V, LAMBDA c : Agg("max", FALSE, <<"i">>, <<c>>)) >>
 
 \* "late": 12 steps from tick 30 on (the long windows are full there)
 ScnOf(x) == Scn("shard", "C11", TickMs, Data(x.n), Basket[x.q], IF x.win = "late" THEN 30 ELSE 2, IF x.win = "instant" THEN 2 ELSE IF x.win = "range" THEN 13 ELSE 41,
